@@ -77,5 +77,15 @@ PROPS['C09'] = {
             'gradients of built-in functionals (KL, Huber, group norms), SeparableSum',
     'technique': 'contract-based deductive verification: gradient / value / Lipschitz rules as postconditions over abstract functionals, Gram normal form, z3',
 }
+PROPS['C08'] = {
+    'level': 'proof',
+    'text': 'Deductive: for every derived functional class with a convex_conj (9 constructions incl. nested scalings, translation, linear perturbation, '
+            'infimal convolution, Bregman distance) the expression returned by the real property is proved to take the value of the Fenchel rule in f* of the '
+            'abstract parts (signs and reciprocals exactly), the biconjugate computed by the code takes the values of h, the default conjugate proximal satisfies '
+            'the Moreau decomposition for all x and sigma > 0; Fenchel-Young with equality at the gradient for the L2-squared pair on extracted integrands.',
+    'note': 'trusted: pyvc interpreter, C01/C03/C04/C09 contracts, Fenchel calculus as specification, f** = f for abstract parts (A6). Partial: built-in '
+            'pairs other than L2NormSquared (Lp / indicator balls, KL, Huber, QuadraticForm) are not under contract',
+    'technique': 'contract-based deductive verification: conjugation rules and Moreau identity as postconditions over abstract conjugates / proximals, z3 + polynomial normal form',
+}
 for _k in PROPS:
     NOT_APPLICABLE.pop(_k, None)
